@@ -19,6 +19,8 @@ def load(R):
     R.contract(N + "is_memoized", prop="C19", types={"self": NS, "fn_reference": FR, "arg_hash": TStr}, returns=TBool, ensures=["not result"])
     R.contract(N + "is_all_memoized", prop="C19", types={"self": NS, "fns": TList(FWA)}, returns=TBool, ensures=["not result"])
     R.contract(N + "list_functions", prop="C19", types={"self": NS, "cluster_name": TOpt(TStr)}, returns=TList(TObj()), ensures=["len(result) == 0"])
+    # "the null storage never reports anything as memoized": the listing of a function's mementos is an empty LIST (the declared return type), like list_functions
+    R.contract(N + "list_mementos", prop="C19", types={"self": NS, "fn": FR, "limit": TOpt(TInt)}, returns=TOpt(TList(TObj())), ensures=["result is not None", "len(result) == 0"])
     R.contract(N + "read_result", prop="C19", types={"self": NS, "memento": M}, returns=TObj(), ensures=["False"], raises={"ValueError": ["forall(obj, lambda m: m.content_key == old(m.content_key))"]})
     R.contract(N + "read_metadata", prop="C19", types={"self": NS, "fn_with_arg_hash": FWH, "key": TStr, "retry_on_none": TBool}, returns=TObj(), ensures=["result is None"])
     R.contract(N + "memoize", prop="C19", modifies=["heap:content_key"], types={"self": NS, "key_override": TOpt(TStr), "memento": M, "result": TObj()},
